@@ -89,7 +89,7 @@ def _iter_source(ex, it: SV, st: State):
     if it.kind == 'tuple':
         return ('static', it.elts)
     if it.kind == 'val' and it.ty is not None and it.ty.kind in ('list', 'dict'):
-        it = sv_ref(ex.as_ref(it, st, 'iteration'), T(it.ty.kind, it.ty.cls, it.ty.elem, it.ty.key))
+        it = sv_ref(ex.as_ref(it, st, 'iteration'), NonOpt(it.ty))
     if it.kind == 'ref' and it.cls == 'list':
         return ('list', it.t, it.ty.elem if it.ty else None)
     if it.kind == 'ref' and it.cls == 'dict':
@@ -194,6 +194,9 @@ def exec_for(ex, s: ast.For, st: State) -> list[State]:
     if 'L_bag' in mod_arr:
         for f in list_axioms(head.h):
             head.assume(f)
+    if mod_arr:
+        for f in heap_closed(head.h, only=None if mod_alloc else set(mod_arr)):
+            head.assume(f)
     for n, ty in spec.locals_ty.items():
         if n not in head.locals:
             head.locals[n] = _fresh_like(ex, from_sort(ex.fresh(ty.sort, n), ty), n, head)
@@ -272,6 +275,9 @@ def exec_while(ex, s: ast.While, st: State) -> list[State]:
     _havoc_into(ex, head, mod_arr, mod_alloc, mod_locals, st, tag)
     if 'L_bag' in mod_arr:
         for f in list_axioms(head.h):
+            head.assume(f)
+    if mod_arr:
+        for f in heap_closed(head.h, only=None if mod_alloc else set(mod_arr)):
             head.assume(f)
     for (nm, f) in spec.inv(lctx(head)):
         head.assume(f)
